@@ -30,6 +30,10 @@
 (*                   its physical channel is removed from it when it is stopped *)
 (*                   (as found: only the collection that created the handler is *)
 (*                   known to StopReadCollection; the joiner's stream stays)    *)
+(*     LateRegisterChecked a stream registration that completes after its       *)
+(*                   collection was stopped is undone (as found: the MQ         *)
+(*                   registration is made asynchronously and never looked at    *)
+(*                   again: it stays, for a paused or deleted task)             *)
 (*     BarrierExits  the barrier goroutine ends when its close channel is       *)
 (*                   closed (repaired in /repo by f48cb71; FALSE = spins)       *)
 (* Contract part: ghost variables cst (abstract task state), prev, last and the *)
@@ -42,9 +46,10 @@ CONSTANTS Tasks,          \* {"t1", "t2"}
           MaxFaults,      \* store faults per history (0 or 1)
           MaxRestarts,    \* restarts per history
           MaxProbes,      \* get/list calls per history
+          MaxHolds,       \* starts during which the MQ registration is held back (a slow MQ), released by a later "release" step
           MaxNoops,       \* requests that cannot have an effect (unknown / already existing task, pause of a paused, resume of a running task)
           WithSettle,     \* TRUE: "settle" (>= 1 s pass) may occur, at most once
-          PauseAtomic, StartRollback, EntityGC, PollerExits, SharedKept, JoinedStopped, BarrierExits
+          PauseAtomic, StartRollback, EntityGC, PollerExits, SharedKept, JoinedStopped, LateRegisterChecked, BarrierExits
 
 Targets == {"a1", "a2"}
 \* DisableAutoStart flag of the create request, fixed per task: t1 disabled, t2 enabled
@@ -68,6 +73,7 @@ VARIABLES
   reg,              \* [Tasks -> Nat]: registered DML streams of the task's collection
   aux,              \* [Tasks -> BOOLEAN]: other reader resources of the task alive (replicate-channel reader, catalog subscriptions, reader goroutines)
   skok,             \* [Tasks -> BOOLEAN]: live streams were seeked to the persisted checkpoints
+  held,             \* [Tasks -> BOOLEAN]: the MQ registration of the task's streams is pending (blocked in the MQ client)
   settled,          \* [Targets -> BOOLEAN]: the entity's channel poller has obtained its channel list
   own,              \* [Targets -> Tasks \cup {"none"}]: whose collection created the handler of the shared physical channel (internal)
   zomb,             \* [Targets -> Nat]: goroutines of released entities of the target that are still alive
@@ -78,15 +84,15 @@ VARIABLES
   last,             \* the last call and its result
   quietSeen,        \* a pause/delete succeeded or a restart left a task paused
   illegalOK,        \* an illegal request was answered with success
-  nf, nr, np, ns, nn, \* faults / restarts / probes / settles / no-op requests used
+  nf, nr, np, ns, nn, nh, \* faults / restarts / probes / settles / no-op requests / holds used
   hist
 
 Tgt(t) == IF same \/ t = "t1" THEN "a1" ELSE "a2"
 
-obsvars == <<stored, mem, apiG, apiL, gset, gcnt, nck, ent, quit, reg, aux, skok, settled, own, zomb, busy>>
+obsvars == <<stored, mem, apiG, apiL, gset, gcnt, nck, ent, quit, reg, aux, skok, held, settled, own, zomb, busy>>
 ghostvars == <<cst, prev, last, quietSeen, illegalOK>>
-vars == <<same, obsvars, ghostvars, nf, nr, np, ns, nn, hist>>
-view == <<same, obsvars, ghostvars, nf, nr, np, ns, nn, Len(hist)>>
+vars == <<same, obsvars, ghostvars, nf, nr, np, ns, nn, nh, hist>>
+view == <<same, obsvars, ghostvars, nf, nr, np, ns, nn, nh, Len(hist)>>
 
 None == [t \in Tasks |-> "none"]
 NoLast == [op |-> "init", task |-> "", ok |-> TRUE, fired |-> FALSE, val |-> ""]
@@ -98,10 +104,11 @@ Init ==
   /\ nck = [t \in Tasks |-> 0]
   /\ ent = [a \in Targets |-> -1] /\ quit = [t \in Tasks |-> FALSE]
   /\ reg = [t \in Tasks |-> 0] /\ aux = [t \in Tasks |-> FALSE] /\ skok = [t \in Tasks |-> TRUE]
+  /\ held = [t \in Tasks |-> FALSE]
   /\ settled = [a \in Targets |-> FALSE] /\ own = [a \in Targets |-> "none"] /\ zomb = [a \in Targets |-> 0] /\ busy = 0
   /\ cst = None /\ prev = [reg |-> reg, nck |-> nck, cst |-> cst] /\ last = NoLast
   /\ quietSeen = FALSE /\ illegalOK = FALSE
-  /\ nf = 0 /\ nr = 0 /\ np = 0 /\ ns = 0 /\ nn = 0 /\ hist = <<>>
+  /\ nf = 0 /\ nr = 0 /\ np = 0 /\ ns = 0 /\ nn = 0 /\ nh = 0 /\ hist = <<>>
 
 Min(a, b) == IF a < b THEN a ELSE b
 Other(t) == CHOOSE u \in Tasks : u # t
@@ -147,7 +154,7 @@ GhostSettle ==
 (* design: helpers on the resource part                                       *)
 (* ------------------------------------------------------------------------ *)
 \* record of the mutable resource variables, threaded through the helper operators
-Res == [ent |-> ent, quit |-> quit, reg |-> reg, aux |-> aux, settled |-> settled, own |-> own, zomb |-> zomb, busy |-> busy]
+Res == [ent |-> ent, quit |-> quit, reg |-> reg, aux |-> aux, held |-> held, settled |-> settled, own |-> own, zomb |-> zomb, busy |-> busy]
 
 EnsureEntity(r, a) ==
   IF r.ent[a] >= 0 THEN r
@@ -183,10 +190,12 @@ Attach(r, t) ==
 \* StartRead: DML streams registered at the persisted checkpoints, catalog subscriptions
 Read(r, t) == [r EXCEPT !.reg[t] = Shards(t), !.aux[t] = TRUE,
                           !.own[Tgt(t)] = IF @ = "none" THEN t ELSE @]
+\* the same with a slow MQ: the registrations are made by background goroutines that are still blocked
+ReadH(r, t, h) == IF h THEN [Read(r, t) EXCEPT !.reg[t] = 0, !.held[t] = TRUE] ELSE Read(r, t)
 
 SetRes(r) ==
   /\ ent' = r.ent /\ quit' = r.quit /\ reg' = r.reg /\ aux' = r.aux
-  /\ settled' = r.settled /\ own' = r.own /\ zomb' = r.zomb /\ busy' = r.busy
+  /\ held' = r.held /\ settled' = r.settled /\ own' = r.own /\ zomb' = r.zomb /\ busy' = r.busy
 
 \* store.UpdateTaskState's gauge update: move the task from the stored (old) state's set to the new one
 GaugeMove(gs, t, old, new) == IF old \in gs[t] THEN [gs EXCEPT ![t] = (@ \ {old}) \cup {new}] ELSE gs
@@ -200,18 +209,18 @@ SetStore(st, gs, n) ==
 (* ------------------------------------------------------------------------ *)
 \* Create: 1 Get(list) 2 Put(position) 3 Put(task,Initial) | startInternal: 4 Get(positions) 5 Get(task) 6 Put(task,Running)
 \*         a failure in startInternal is followed by delete(): Get, Txn, Delete, Delete, commit
-Create(t, k) ==
+Create(t, k, h) ==
   LET a == Tgt(t) IN
   IF mem[t] # "none"
-    THEN /\ k = 0                                             \* known id: answered with the id, nothing happens
+    THEN /\ k = 0 /\ ~h                                      \* known id: answered with the id, nothing happens
          /\ UNCHANGED <<obsvars>>
          /\ Ghost("create", t, TRUE, FALSE, "")
-    ELSE /\ k \in 0..6
+    ELSE /\ k \in 0..6 /\ (h => k = 0 /\ ~held[t])
          /\ CASE k \in {1, 2} ->
                    /\ UNCHANGED <<obsvars>>
               [] k = 3 ->                                      \* the position record stays behind (not C11's business)
                    /\ SetStore(stored, gset, [nck EXCEPT ![t] = 1])
-                   /\ UNCHANGED <<mem, ent, quit, reg, aux, skok, settled, own, zomb, busy>>
+                   /\ UNCHANGED <<mem, ent, quit, reg, aux, skok, held, settled, own, zomb, busy>>
               [] k \in {4, 5, 6} ->                            \* started half-way, then deleted again
                    /\ SetStore(stored, gset, [nck EXCEPT ![t] = 0])
                    /\ mem' = mem /\ skok' = skok
@@ -221,7 +230,7 @@ Create(t, k) ==
               [] k = 0 ->
                    /\ SetStore([stored EXCEPT ![t] = "Running"], [gset EXCEPT ![t] = {"Running"}], [nck EXCEPT ![t] = 1])
                    /\ mem' = [mem EXCEPT ![t] = "Running"] /\ skok' = skok
-                   /\ SetRes(Read(Attach(EnsureEntity(Res, a), t), t))
+                   /\ SetRes(ReadH(Attach(EnsureEntity(Res, a), t), t, h))
          /\ Ghost("create", t, k = 0, k # 0, "")
 
 \* Pause: UpdateTaskState(Paused, [Running]): 1 Get 2 Put; then memory, quit func, refcount
@@ -243,15 +252,15 @@ Pause(t, k) ==
          /\ Ghost("pause", t, ~fail, k # 0, "")
 
 \* Resume: startInternal: 1 Get(positions) | attach | UpdateTaskState(Running, [Initial, Paused]): 2 Get 3 Put | StartRead
-Resume(t, k) ==
+Resume(t, k, h) ==
   LET a == Tgt(t) IN
   IF mem[t] \in {"none", "Running"}
-    THEN /\ k = 0 /\ UNCHANGED <<obsvars>>
+    THEN /\ k = 0 /\ ~h /\ UNCHANGED <<obsvars>>
          /\ Ghost("resume", t, FALSE, FALSE, "")
     ELSE LET guard == stored[t] \in {"Initial", "Paused"}
              fail == k # 0 \/ ~guard
              r0 == EnsureEntity(Res, a) IN
-         /\ k \in 0..3
+         /\ k \in 0..3 /\ (h => ~fail /\ ~held[t])
          /\ IF k = 1
               THEN /\ UNCHANGED <<stored, mem, apiG, apiL, gset, gcnt, nck, skok>>
                    /\ SetRes(IF EntityGC /\ r0.ent[a] = 0 THEN Release(r0, a) ELSE r0)
@@ -262,7 +271,7 @@ Resume(t, k) ==
                                       ELSE Attach(r0, t))
                      ELSE /\ SetStore([stored EXCEPT ![t] = "Running"], GaugeMove(gset, t, stored[t], "Running"), nck)
                           /\ mem' = [mem EXCEPT ![t] = "Running"] /\ skok' = skok
-                          /\ SetRes(Read(Attach(r0, t), t))
+                          /\ SetRes(ReadH(Attach(r0, t), t, h))
          /\ Ghost("resume", t, ~fail, k # 0, "")
 
 \* Delete: store.DeleteTask: 1 Get 2 Txn 3 Delete(task) 4 Delete(positions) 5 commit; then memory, quit func, refcount
@@ -301,7 +310,8 @@ ReloadOne(t, S) ==   \* S = [st, gs, mem, r]
 
 Restart ==
   LET fresh == [ent |-> [a \in Targets |-> -1], quit |-> [t \in Tasks |-> FALSE], reg |-> [t \in Tasks |-> 0],
-                aux |-> [t \in Tasks |-> FALSE], settled |-> [a \in Targets |-> FALSE],
+                aux |-> [t \in Tasks |-> FALSE], held |-> [t \in Tasks |-> FALSE],
+                settled |-> [a \in Targets |-> FALSE],
                 own |-> [a \in Targets |-> "none"],
                 zomb |-> [a \in Targets |-> 0], busy |-> 0]
       S0 == [st |-> stored, gs |-> [t \in Tasks |-> {}], mem |-> None, r |-> fresh]
@@ -315,10 +325,25 @@ Restart ==
 \* at least one second passes: pollers of live entities obtain their channel list; pollers left behind by a
 \* released entity end as soon as a new entity of the same target has a channel list
 Settle ==
-  /\ UNCHANGED <<stored, mem, apiG, apiL, gset, gcnt, nck, ent, quit, reg, aux, skok, own, busy>>
+  /\ UNCHANGED <<stored, mem, apiG, apiL, gset, gcnt, nck, ent, quit, reg, aux, skok, held, own, busy>>
   /\ settled' = [a \in Targets |-> settled[a] \/ ent[a] > 0]
   /\ zomb' = [a \in Targets |-> IF ent[a] > 0 THEN 0 ELSE zomb[a]]
   /\ GhostSettle
+
+\* the MQ lets the pending registrations of t's streams through
+ReleaseHold(t) ==
+  /\ held[t]
+  /\ UNCHANGED <<stored, mem, apiG, apiL, gset, gcnt, nck, ent, quit, skok, settled, own, zomb, busy>>
+  /\ held' = [held EXCEPT ![t] = FALSE]
+  /\ IF mem[t] = "Running" /\ quit[t]
+       THEN reg' = [reg EXCEPT ![t] = Shards(t)] /\ aux' = aux
+       ELSE IF LateRegisterChecked
+              THEN reg' = reg /\ aux' = aux
+              ELSE /\ reg' = [reg EXCEPT ![t] = Shards(t)]           \* registered although the task was stopped meanwhile
+                   /\ aux' = [aux EXCEPT ![t] = ent[Tgt(t)] >= 0]    \* its pump goroutines live as long as the entity
+  /\ cst' = cst /\ prev' = [reg |-> reg, nck |-> nck, cst |-> cst]
+  /\ last' = [op |-> "release", task |-> t, ok |-> TRUE, fired |-> FALSE, val |-> ""]
+  /\ UNCHANGED <<quietSeen, illegalOK>>
 
 Step(h) == hist' = Append(hist, h)
 
@@ -332,25 +357,29 @@ CountNoop(op, t) == /\ (Noop(op, t) => nn < MaxNoops) /\ nn' = nn + (IF Noop(op,
 
 Next ==
   /\ Len(hist) < MaxOps /\ same' = same
-  /\ \/ \E t \in Tasks, k \in 0..6 :
+  /\ \/ \E t \in Tasks, k \in 0..6, h \in BOOLEAN :
           /\ (k # 0 => nf < MaxFaults) /\ nf' = nf + (IF k # 0 THEN 1 ELSE 0)
+          /\ (h => nh < MaxHolds) /\ nh' = nh + (IF h THEN 1 ELSE 0)
           /\ UNCHANGED <<nr, np, ns>>
-          /\ \/ Create(t, k) /\ CountNoop("create", t) /\ Step([op |-> "create", task |-> t, das |-> Das(t), k |-> k])
-             \/ Pause(t, k)  /\ CountNoop("pause", t)  /\ Step([op |-> "pause", task |-> t, das |-> FALSE, k |-> k])
-             \/ Resume(t, k) /\ CountNoop("resume", t) /\ Step([op |-> "resume", task |-> t, das |-> FALSE, k |-> k])
-             \/ Delete(t, k) /\ CountNoop("delete", t) /\ Step([op |-> "delete", task |-> t, das |-> FALSE, k |-> k])
+          /\ \/ Create(t, k, h) /\ CountNoop("create", t) /\ Step([op |-> "create", task |-> t, das |-> Das(t), k |-> k, hold |-> h])
+             \/ Resume(t, k, h) /\ CountNoop("resume", t) /\ Step([op |-> "resume", task |-> t, das |-> FALSE, k |-> k, hold |-> h])
+             \/ ~h /\ Pause(t, k)  /\ CountNoop("pause", t)  /\ Step([op |-> "pause", task |-> t, das |-> FALSE, k |-> k, hold |-> FALSE])
+             \/ ~h /\ Delete(t, k) /\ CountNoop("delete", t) /\ Step([op |-> "delete", task |-> t, das |-> FALSE, k |-> k, hold |-> FALSE])
      \/ \E t \in Tasks, k \in 0..1 :
           /\ np < MaxProbes /\ np' = np + 1
           /\ (k # 0 => nf < MaxFaults) /\ nf' = nf + (IF k # 0 THEN 1 ELSE 0)
-          /\ UNCHANGED <<nr, ns>>
-          /\ \/ Get(t, k) /\ CountNoop("get", t) /\ Step([op |-> "get", task |-> t, das |-> FALSE, k |-> k])
-             \/ t = "t1" /\ List(k) /\ nn' = nn /\ Step([op |-> "list", task |-> "", das |-> FALSE, k |-> k])
-     \/ /\ nr < MaxRestarts /\ nr' = nr + 1 /\ UNCHANGED <<nf, np, ns, nn>>
+          /\ UNCHANGED <<nr, ns, nh>>
+          /\ \/ Get(t, k) /\ CountNoop("get", t) /\ Step([op |-> "get", task |-> t, das |-> FALSE, k |-> k, hold |-> FALSE])
+             \/ t = "t1" /\ List(k) /\ nn' = nn /\ Step([op |-> "list", task |-> "", das |-> FALSE, k |-> k, hold |-> FALSE])
+     \/ /\ nr < MaxRestarts /\ nr' = nr + 1 /\ UNCHANGED <<nf, np, ns, nn, nh>>
         /\ \E t \in Tasks : stored[t] # "none"
-        /\ Restart /\ Step([op |-> "restart", task |-> "", das |-> FALSE, k |-> 0])
-     \/ /\ WithSettle /\ ns < 1 /\ ns' = ns + 1 /\ UNCHANGED <<nf, np, nr, nn>>
+        /\ Restart /\ Step([op |-> "restart", task |-> "", das |-> FALSE, k |-> 0, hold |-> FALSE])
+     \/ /\ WithSettle /\ ns < 1 /\ ns' = ns + 1 /\ UNCHANGED <<nf, np, nr, nn, nh>>
         /\ \E a \in Targets : ent[a] >= 0 \/ zomb[a] > 0
-        /\ Settle /\ Step([op |-> "settle", task |-> "", das |-> FALSE, k |-> 0])
+        /\ Settle /\ Step([op |-> "settle", task |-> "", das |-> FALSE, k |-> 0, hold |-> FALSE])
+     \/ \E t \in Tasks :
+          /\ ReleaseHold(t) /\ UNCHANGED <<nf, np, nr, ns, nn, nh>>
+          /\ Step([op |-> "release", task |-> t, das |-> FALSE, k |-> 0, hold |-> FALSE])
 
 Spec == Init /\ [][Next]_vars
 
@@ -376,17 +405,18 @@ OnlyLegalTransitions ==
 
 \* a lifecycle call on one task leaves the readers of the others alone
 OthersUntouchedX(XR) ==
-  last.op \in {"create", "pause", "resume", "delete", "get", "list", "settle"} =>
+  last.op \in {"create", "pause", "resume", "delete", "get", "list", "settle", "release"} =>
      \A u \in Tasks \ XR : u # last.task => reg[u] = prev.reg[u]
 
 \* a paused or deleted task has no readers and holds no share of its target's entity;
 \* the entity's refcount is the number of running tasks of the target and it is released at 0
 PausedIsQuietX(XQ, XA) ==
-  /\ \A t \in Tasks \ XQ : (Tgt(t) \notin XA /\ cst[t] \in {"Paused", "none"}) => (reg[t] = 0 /\ ~aux[t] /\ ~quit[t])
+  /\ \A t \in Tasks \ XQ : (Tgt(t) \notin XA /\ cst[t] \in {"Paused", "none"}) =>
+                               (reg[t] = 0 /\ ~quit[t] /\ (held[t] \/ ~aux[t]))   \* a registration blocked in the MQ client cannot be taken back
   /\ \A a \in Targets \ XA : IF NRunning(a) = 0 THEN ent[a] = -1 /\ zomb[a] = 0 ELSE ent[a] = NRunning(a)
 
 \* a running task reads (from its checkpoints)
-RunningReadsX(XR) == \A t \in Tasks \ XR : cst[t] = "Running" => (reg[t] >= 1 /\ quit[t] /\ skok[t])
+RunningReadsX(XR) == \A t \in Tasks \ XR : cst[t] = "Running" => ((held[t] \/ reg[t] >= 1) /\ quit[t] /\ skok[t])
 
 NoBusyWork == quietSeen => busy = 0
 
@@ -416,6 +446,7 @@ TypeOK ==
   /\ stored \in [Tasks -> TStates] /\ mem \in [Tasks -> TStates] /\ cst \in [Tasks -> TStates]
   /\ \A t \in Tasks : gset[t] \subseteq GStates /\ nck[t] \in 0..1 /\ reg[t] \in 0..2
   /\ \A a \in Targets : own[a] \in Tasks \cup {"none"}
+  /\ held \in [Tasks -> BOOLEAN]
   /\ \A a \in Targets : ent[a] \in -1..3 /\ zomb[a] \in 0..2
   /\ busy \in 0..2
 
